@@ -7,8 +7,12 @@ import itertools
 
 from .sx import Sym, d_int, d_str, some
 
-RULE = ('three case kinds.  body: program trees over {return obj, raise <any of 22 classes incl. BaseException '
-        'subclasses>, probe gauge, seq, try/except, wrapper as decorator (on generated functions of every parameter shape, '
+RULE = ('three case kinds.  body: program trees over {return obj, raise <any of 28 classes incl. BaseException '
+        'subclasses, PEP 654 exception groups (ExceptionGroup / BaseExceptionGroup and user subclasses of both, holding '
+        'nested members that mix classes matching and not matching the configuration; a group is one more class of the '
+        'hierarchy - ExceptionGroup has the two bases BaseExceptionGroup and Exception - and counts only when the group '
+        'object itself is of a configured type), exceptions carrying __cause__ / __context__ chains, a class whose '
+        'instances answer __class__ with a base class, a class made by a metaclass>, probe gauge, seq, try/except, wrapper as decorator (on generated functions of every parameter shape, '
         'methods, lambdas) or as with-block, true recursion to depth k, re-used Timer object} x the 3 wrappers on plain and '
         'labelled Counter/Gauge/Summary/Histogram; count_exceptions configured with everything `except <spec>` accepts - no '
         'argument, a class (incl. BaseException-only ones), the empty tuple, 1-tuples, flat tuples, tuples with repeated and with '
@@ -22,8 +26,8 @@ RULE = ('three case kinds.  body: program trees over {return obj, raise <any of 
         'non-ASCII, percent and quote characters, 5000 chars, in the source or assigned; __name__, __qualname__, __doc__ compared '
         'exactly, __defaults__/__kwdefaults__/__annotations__ by object identity) x call shapes valid and invalid '
         '(missing, too many, unexpected keyword, duplicate, positional-only by keyword, keyword named func): exhaustive '
-        'over small shapes x small calls, then random.  hier: all 22x22 issubclass pairs.  match: isinstance(exc, spec) of the model '
-        'against a real except clause, all 22 classes x a pool of specs, then random specs.  '
+        'over small shapes x small calls, then random.  hier: all 28x28 issubclass pairs.  match: isinstance(exc, spec) of the model '
+        'against a real except clause, all 28 classes x a pool of specs, then random specs.  '
         'non-trivial = at least one wrapper executed with a raising body or a non-increasing clock (body); '
         'a call with at least one keyword or default involved (bind); distinct by the whole case')
 TRUSTED = ['CPython: the with-statement protocol, exec/compile of the generated def, function attribute copying '
@@ -39,7 +43,10 @@ TIME_BUDGET = {'quick': 75, 'thorough': 900}
 CLS_NAMES = ['BaseException', 'Exception', 'KeyboardInterrupt', 'SystemExit', 'GeneratorExit', 'ArithmeticError',
              'ZeroDivisionError', 'LookupError', 'KeyError', 'IndexError', 'ValueError', 'UnicodeError', 'TypeError',
              'OSError', 'FileNotFoundError', 'RuntimeError', 'RecursionError', 'StopIteration',
-             'UserError', 'UserKeyError', 'UserBase', 'UserExit']
+             'UserError', 'UserKeyError', 'UserBase', 'UserExit',
+             'BaseExceptionGroup', 'ExceptionGroup', 'UserGroup', 'UserBaseGroup', 'UserProxy', 'UserMeta']
+GROUPS = ('BaseExceptionGroup', 'ExceptionGroup', 'UserGroup', 'UserBaseGroup')      # PEP 654, Python >= 3.11
+EXC_GROUPS = ('ExceptionGroup', 'UserGroup')                                          # may hold Exception instances only
 
 
 class UserError(Exception):
@@ -58,9 +65,114 @@ class UserExit(SystemExit):
     pass
 
 
+class UserGroup(ExceptionGroup):
+    pass
+
+
+class UserBaseGroup(BaseExceptionGroup):
+    pass
+
+
+class UserProxy(KeyError):
+    """instances override __class__ - with a base of their real class, so that isinstance (which falls back on
+    __class__) and `except` (which looks at the type only) agree on every spec"""
+    __class__ = property(lambda self: LookupError)
+
+
+class _Made(type):
+    def __call__(cls, *a, **k):
+        o = super().__call__(*a, **k)
+        o.made_by_metaclass = True
+        return o
+
+
+class UserMeta(ArithmeticError, metaclass=_Made):
+    pass
+
+
 CLS = {n: getattr(builtins, n) for n in CLS_NAMES if hasattr(builtins, n)}
-CLS.update(UserError=UserError, UserKeyError=UserKeyError, UserBase=UserBase, UserExit=UserExit)
+CLS.update(UserError=UserError, UserKeyError=UserKeyError, UserBase=UserBase, UserExit=UserExit, UserGroup=UserGroup,
+           UserBaseGroup=UserBaseGroup, UserProxy=UserProxy, UserMeta=UserMeta)
 CLS_OF = {v: k for k, v in CLS.items()}
+
+
+# ---- exception objects ----
+# A raise leaf is ['raise', class name, object id] or ['raise', class name, object id, deco]; deco (implementation side
+# only - the model's Raise has a class and an identity, nothing else may matter) is a dict with optional keys
+#   'members': for a group class, the exceptions it holds: a list of items, an item being a class name or
+#              [group class name, [items]]
+#   'cause' / 'context': an item set as __cause__ / __context__ of the raised object
+DEFAULT_MEMBERS = ['ValueError', ['ExceptionGroup', ['UserKeyError', 'FileNotFoundError']], 'TypeError']
+
+
+def item_name(item):
+    return item if isinstance(item, str) else item[0]
+
+
+def build_item(item):
+    if isinstance(item, str):
+        return build_group(item, DEFAULT_MEMBERS) if item in GROUPS else CLS[item]()
+    return build_group(item[0], item[1])
+
+
+def build_group(cname, members):
+    """an object whose type is exactly CLS[cname]: ExceptionGroup and its subclasses take Exception members only, and
+    BaseExceptionGroup(...) of Exception members only would return an ExceptionGroup"""
+    ms = list(members)
+    if cname in EXC_GROUPS:
+        ms = [m for m in ms if issubclass(CLS[item_name(m)], Exception)] or ['UserError']
+    elif cname == 'BaseExceptionGroup' and all(issubclass(CLS[item_name(m)], Exception) for m in ms):
+        ms = ms + ['UserBase']
+    g = CLS[cname]('group', [build_item(m) for m in ms])
+    if type(g) is not CLS[cname]:
+        raise AssertionError('harness: built %r for %s' % (type(g), cname))
+    return g
+
+
+def make_exc(cname, deco=None):
+    deco = deco or {}
+    if cname in GROUPS:
+        e = build_group(cname, deco.get('members', DEFAULT_MEMBERS))
+    else:
+        e = CLS[cname]()
+    if deco.get('cause') is not None:
+        e.__cause__ = build_item(deco['cause'])
+    if deco.get('context') is not None:
+        e.__context__ = build_item(deco['context'])
+    return e
+
+
+def describe(e, depth=0):
+    """class name, members of a group, explicit chain - for messages"""
+    n = CLS_OF.get(type(e), type(e).__name__)
+    if hasattr(e, 'exceptions') and depth < 4:
+        n += '[' + ', '.join(describe(m, depth + 1) for m in e.exceptions) + ']'
+    if depth == 0:
+        if e.__cause__ is not None:
+            n += ' from ' + describe(e.__cause__, 1)
+        elif e.__context__ is not None:
+            n += ' during ' + describe(e.__context__, 1)
+    return n
+
+
+def held_by(e):
+    """(exceptions held, at any depth, by the group e; exceptions on the __cause__/__context__ chains of e)"""
+    members, chain, seen = [], [], {id(e)}
+    todo = list(getattr(e, 'exceptions', ()))
+    while todo:
+        m = todo.pop()
+        if id(m) not in seen:
+            seen.add(id(m))
+            members.append(m)
+            todo.extend(getattr(m, 'exceptions', ()))
+    todo = [e.__cause__, e.__context__]
+    while todo and len(chain) < 50:
+        m = todo.pop()
+        if m is not None and id(m) not in seen:
+            seen.add(id(m))
+            chain.append(m)
+            todo.extend([m.__cause__, m.__context__])
+    return members, chain
 
 
 # ---- exception specs: 'default' (no argument) | 'ClassName' | [spec, ...] (a tuple, possibly empty / nested) ----
@@ -99,6 +211,10 @@ def except_obj(sp):
     if isinstance(sp, str):
         return CLS[sp]
     return tuple(CLS[n] for n in spec_names(sp))
+
+
+def reference_clause(sp):
+    return Exception if sp == 'default' else except_obj(sp)
 
 
 def except_catches(exc, sp):
@@ -330,9 +446,9 @@ class BodyRun:
             self.obj_id[id(o)] = v
         return self.objs[v]
 
-    def exc_obj(self, cname, o):
+    def exc_obj(self, cname, o, deco=None):
         if o not in self.exc:
-            self.exc[o] = CLS[cname]()
+            self.exc[o] = make_exc(cname, deco)
         return self.exc[o]
 
     def gauge_value(self, g):
@@ -375,9 +491,18 @@ class BodyRun:
                 caught = True
                 raise
         except BaseException as e:
-            self.count_ctx.append((w[1], w[2], type(e), caught))
+            # measured, not judged: does something the escaping object merely HOLDS (group members, chained
+            # exceptions) match the configuration while the object itself does not
+            tag = None
+            if not caught:
+                members, chain = held_by(e)
+                if any(isinstance(m, ref) for m in members):
+                    tag = 'member-matches'
+                elif any(isinstance(m, ref) for m in chain):
+                    tag = 'chain-matches'
+            self.count_ctx.append((w[1], w[2], type(e), caught, describe(e), tag))
             raise
-        self.count_ctx.append((w[1], w[2], None, False))
+        self.count_ctx.append((w[1], w[2], None, False, None, None))
         return r
 
     def around(self, w, thunk):
@@ -410,7 +535,7 @@ class BodyRun:
         if t == 'ret':
             return self.obj(b[1])
         if t == 'raise':
-            raise self.exc_obj(b[1], b[2])
+            raise self.exc_obj(b[1], b[2], b[3] if len(b) > 3 else None)
         if t == 'probe':
             self.plog.append([b[1], num(self.gauge_value(b[1]))])
             return None
@@ -501,8 +626,8 @@ class BodyRun:
         aux = dict(pub={str(k): v for k, v in pub.items()},
                    windows=[[self.clock.at(a), self.clock.at(b), (b - a) if own else 0] for a, b, own in self.timer_windows],
                    raw_nonneg=[(a == a and a >= 0) for _i, a in raw],
-                   counted=[[c, cfg, (CLS_OF.get(e, e.__name__) if e else None), bool(caught)]
-                            for c, cfg, e, caught in self.count_ctx])
+                   counted=[[c, cfg, (CLS_OF.get(e, e.__name__) if e else None), bool(caught), desc, tag]
+                            for c, cfg, e, caught, desc, tag in self.count_ctx])
         return dict(cmp=cmp_, aux=aux)
 
 
@@ -645,8 +770,8 @@ def direct_body(case, obs):
             return ('exception counter %d is %r; out of its count_exceptions contexts %d exception(s) escaped that '
                     '`except <configured types>` catches: %s'
                     % (cm, c['cnt'][cm], exp_n,
-                       '; '.join('configured %s, escaped %s -> %s' % (spec_text(cfg), e, 'counts' if hit else 'does not count')
-                                 for _c, cfg, e, hit in mine[:8])))
+                       '; '.join('configured %s, escaped %s -> %s' % (spec_text(cfg), desc or e, 'counts' if hit else 'does not count')
+                                 for _c, cfg, e, hit, desc, _t in mine[:8])))
     return None
 
 
@@ -952,7 +1077,7 @@ def impl(case):
     if k == 'hier':
         return dict(cmp=issubclass(CLS[case['c']], CLS[case['d']]), aux={})
     if k == 'match':
-        exc = CLS[case['k']]()
+        exc = make_exc(case['k'], case.get('deco'))
         return dict(cmp=except_catches(exc, case['spec']), aux=dict(isinstance=isinstance(exc, spec_obj(case['spec']))))
     raise ValueError(k)
 
@@ -1039,6 +1164,16 @@ def classify(case, obs):
             w = n[1] if n[0] == 'call' else n[2] if n[0] == 'rec' else None
             if w and w[0] == 'count':
                 out.append('config:' + spec_kind(w[2]))
+        for x in obs['aux']['counted']:
+            if x[2] in GROUPS:
+                out.append('escape:group:' + ('counted' if x[3] else 'not-counted'))
+            if x[2] in ('UserProxy', 'UserMeta'):
+                out.append('escape:%s:%s' % (x[2], 'counted' if x[3] else 'not-counted'))
+            if x[5]:
+                out.append('escape:not-counted-but-%s-config' % x[5])
+        for n in walk(case['body']):
+            if n[0] == 'raise' and len(n) > 3:
+                out.extend('raise:with-' + k for k in sorted(n[3]))
         for x in obs['aux']['counted']:
             if x[2] and x[1] != 'default':
                 names = spec_names(x[1])
@@ -1154,7 +1289,33 @@ SPEC_POOL = [
     'KeyboardInterrupt', 'GeneratorExit', 'UserBase', ['SystemExit'],     # BaseException-only
     ['KeyboardInterrupt', 'Exception'], ['UserBase', ['GeneratorExit'], 'StopIteration'],
     'Exception', ['Exception'], ['BaseException', []],
+    'ExceptionGroup', 'BaseExceptionGroup', ['UserGroup', 'ValueError'], ['UserBaseGroup', ['KeyError']],     # groups
+    'UserProxy', ['UserMeta', ['BaseExceptionGroup']], ['LookupError', 'ArithmeticError'],
 ]
+
+# what is raised beyond `a plain instance of a class`: groups (nested; members matching / not matching the usual
+# configurations; groups that ARE of a configured type), chained exceptions
+DECO_LEAVES = [
+    ['raise', 'ExceptionGroup', 1, {'members': ['ValueError']}],
+    ['raise', 'ExceptionGroup', 1, {'members': ['ValueError', 'TypeError']}],
+    ['raise', 'ExceptionGroup', 1, {'members': ['TypeError', ['ExceptionGroup', ['KeyError']]]}],
+    ['raise', 'ExceptionGroup', 1, {'members': [['UserGroup', [['ExceptionGroup', ['FileNotFoundError']]]], 'UserMeta']}],
+    ['raise', 'BaseExceptionGroup', 1, {'members': ['UserBase', 'ValueError']}],
+    ['raise', 'BaseExceptionGroup', 1, {'members': ['KeyboardInterrupt']}],
+    ['raise', 'BaseExceptionGroup', 1, {'members': [['ExceptionGroup', ['OSError', 'UserProxy']], 'SystemExit']}],
+    ['raise', 'UserGroup', 1, {'members': ['UserKeyError']}],
+    ['raise', 'UserBaseGroup', 1, {'members': ['ValueError']}],
+    ['raise', 'UserBaseGroup', 1, {'members': [['BaseExceptionGroup', ['KeyboardInterrupt']], 'FileNotFoundError']}],
+    ['raise', 'TypeError', 1, {'cause': 'ValueError'}],
+    ['raise', 'UserBase', 1, {'context': 'KeyError'}],
+    ['raise', 'RuntimeError', 1, {'cause': ['ExceptionGroup', ['ValueError']], 'context': 'OSError'}],
+    ['raise', 'KeyboardInterrupt', 1, {'cause': 'UserError'}],
+    ['raise', 'ExceptionGroup', 1, {'members': ['TypeError'], 'context': 'ValueError'}],
+    ['raise', 'UserProxy', 1], ['raise', 'UserMeta', 1, {'cause': 'UserProxy'}],
+]
+DECO_SPECS = ['default', 'ValueError', ['KeyError', 'OSError'], 'BaseException', 'Exception', 'ExceptionGroup',
+              'BaseExceptionGroup', ['UserGroup', 'TypeError'], 'UserBaseGroup', 'UserBase', 'KeyboardInterrupt',
+              [['LookupError'], []], ['UserError', 'ArithmeticError']]
 
 
 def extra_count_wrappers():
@@ -1204,6 +1365,35 @@ def rand_wrapper(rng, allow_interference=False):
     return ['time', ['set', rng.choice(SET_GAUGES)]]
 
 
+NON_GROUPS = [n for n in CLS_NAMES if n not in GROUPS]
+
+
+def rand_members(rng, depth=0):
+    out = []
+    for _ in range(rng.randrange(1, 4)):
+        if depth < 2 and rng.random() < 0.25:
+            out.append([rng.choice(GROUPS), rand_members(rng, depth + 1)])
+        else:
+            out.append(rng.choice(NON_GROUPS))
+    return out
+
+
+def rand_item(rng):
+    return [rng.choice(GROUPS), rand_members(rng, 1)] if rng.random() < 0.2 else rng.choice(NON_GROUPS)
+
+
+def rand_raise(rng, o):
+    cname = rng.choice(GROUPS) if rng.random() < 0.2 else rng.choice(CLS_NAMES)
+    deco = {}
+    if cname in GROUPS and rng.random() < 0.8:
+        deco['members'] = rand_members(rng)
+    if rng.random() < 0.15:
+        deco['cause'] = rand_item(rng)
+    if rng.random() < 0.15:
+        deco['context'] = rand_item(rng)
+    return ['raise', cname, o, deco] if deco else ['raise', cname, o]
+
+
 class Gen:
     def __init__(self, rng):
         self.rng = rng
@@ -1220,7 +1410,7 @@ class Gen:
         if r < 0.9:
             o = self.next_exc
             self.next_exc += 1
-            return ['raise', rng.choice(CLS_NAMES), o]
+            return rand_raise(rng, o)
         return ['probe', rng.choice(GAUGES)]
 
     def tree(self, depth, interference=False):
@@ -1313,6 +1503,19 @@ def body_cases(ctx):
         for i, leaf in enumerate(leaves):
             yield dict(kind='body', body=['call', w, leaf, 'with'], clock=[1, 2])
             yield dict(kind='body', body=['call', w, leaf, 'dec', (i + j) % len(BODY_SHAPES)], clock=[1, 2])
+    # groups and chained exceptions x configurations naming members / the group class / bases of it x both modes
+    for j, sp in enumerate(DECO_SPECS):
+        for i, leaf in enumerate(DECO_LEAVES):
+            w = ['count', (i + j) % 2, sp]
+            yield dict(kind='body', body=['call', w, leaf, 'with'], clock=[1, 2])
+            yield dict(kind='body', body=['call', w, leaf, 'dec', (i + j) % len(BODY_SHAPES)], clock=[1, 2])
+    for sp in DECO_SPECS[:8]:
+        for leaf in DECO_LEAVES[1:8:2]:
+            yield dict(kind='body', clock=[3, 1, 4, 1, 5, 9, 2, 6], body=['rec', 2, ['count', 0, sp], leaf])
+            yield dict(kind='body', clock=[3, 1, 4, 1, 5, 9, 2, 6],
+                       body=['call', ['count', 1, 'default'],
+                             ['call', ['track', 2], ['call', ['count', 0, sp], ['call', ['time', ['obs', 5]], leaf, 'with'],
+                                                     'dec', 3], 'with'], 'dec', 1])
     # ... recursing, and nested in / around the other wrappers and another counter configuration
     for w in extra_count_wrappers()[::2]:
         for leaf in (['ret', 1], ['raise', 'ValueError', 1], ['raise', 'UserKeyError', 2], ['raise', 'KeyboardInterrupt', 3]):
@@ -1519,8 +1722,16 @@ def cases(ctx):
     for sp in SPEC_POOL:
         for c in CLS_NAMES:
             yield dict(kind='match', k=c, spec=sp)
+    for sp in DECO_SPECS[1:]:
+        for leaf in DECO_LEAVES:
+            if len(leaf) > 3:
+                yield dict(kind='match', k=leaf[1], spec=sp, deco=leaf[3])
     for _ in range(ctx.n(600, 20000)):
-        yield dict(kind='match', k=ctx.rng.choice(CLS_NAMES), spec=rand_spec(ctx.rng))
+        leaf = rand_raise(ctx.rng, 1)
+        c = dict(kind='match', k=leaf[1], spec=rand_spec(ctx.rng))
+        if len(leaf) > 3:
+            c['deco'] = leaf[3]
+        yield c
     gens = [body_cases(ctx), bind_cases(ctx)]
     # interleave so that a time budget cuts both streams evenly
     while gens:
@@ -1594,7 +1805,18 @@ def spec_shrinks(sp):
 def simplify(b):
     """one-step simplifications of the root"""
     t = b[0]
-    if t == 'call':
+    if t == 'raise' and len(b) > 3:
+        yield b[:3]
+        d = b[3]
+        for k in d:
+            yield b[:3] + [{k2: v for k2, v in d.items() if k2 != k}]
+        ms = d.get('members') or []
+        for i, m in enumerate(ms):
+            if len(ms) > 1:
+                yield b[:3] + [dict(d, members=ms[:i] + ms[i + 1:])]
+            if not isinstance(m, str):
+                yield b[:3] + [dict(d, members=ms[:i] + list(m[1]) + ms[i + 1:])]
+    elif t == 'call':
         for s in simplify(b[2]):
             yield b[:2] + [s] + b[3:]
         if b[1][0] == 'count':
@@ -1626,7 +1848,8 @@ def neighbours(case):
     if case['kind'] == 'body':
         for clk in CLOCKS3.values():
             out.append(dict(case, clock=list(clk) * 3))
-        for leaf in (['ret', 1], ['raise', 'KeyError', 1], ['raise', 'KeyboardInterrupt', 1]):
+        for leaf in (['ret', 1], ['raise', 'KeyError', 1], ['raise', 'KeyboardInterrupt', 1], DECO_LEAVES[1], DECO_LEAVES[4],
+                     DECO_LEAVES[10]):
             out.append(dict(case, body=replace_leaves(case['body'], leaf)))
         for sp in ([], 'default', ['KeyError', 'KeyError'], [['KeyboardInterrupt']]):
             out.append(dict(case, body=replace_configs(case['body'], sp)))
